@@ -9,6 +9,7 @@ from ..data_container import DataContainer
 from ..linalg.rotation import promax
 from ..preprocessing import PCA, Preprocessor, Whitener
 from ..utils.data_types import DataArray, DataObject
+from ..utils.sanity_checks import sanity_check_n_modes
 from ..utils.xarray_utils import argsort_dask, get_deterministic_sign_multiplier
 from .cpcca import CPCCA, ComplexCPCCA, HilbertCPCCA
 
@@ -76,6 +77,7 @@ class CPCCARotator(CPCCA):
     ):
         BaseModel.__init__(self)
 
+        sanity_check_n_modes(n_modes)
         if max_iter is None:
             max_iter = 1000 if compute else 100
 
